@@ -196,7 +196,7 @@ func childMain(r *mon.Run, args []string) {
 func ldbKillAndVerify(r *mon.Run, seq, killAt int) {
 	dir := filepath.Join(mon.WorkDir(), fmt.Sprintf("ldb-%d-kill-%d", seq, killAt))
 	defer os.RemoveAll(dir)
-	to := time.Duration(r.Pick(120, 600)) * time.Second
+	to := time.Duration(r.Pick(300, 900)) * time.Second
 	res := r.RunChild(mon.ChildSpec{Label: "ldb-run", Args: []string{"ldb-run", fmt.Sprint(seq), fmt.Sprint(killAt)}, Dir: dir, Timeout: to})
 	if !r.Absorb(res, "C03:ldb-run", 77) {
 		return
@@ -233,7 +233,7 @@ func ldbCampaign(r *mon.Run) {
 	for _, seq := range seqs {
 		seq := seq
 		dir := filepath.Join(mon.WorkDir(), fmt.Sprintf("ldb-%d-count", seq))
-		res := r.RunChild(mon.ChildSpec{Label: "ldb-count", Args: []string{"ldb-run", fmt.Sprint(seq), "0"}, Dir: dir, Timeout: time.Duration(r.Pick(120, 600)) * time.Second})
+		res := r.RunChild(mon.ChildSpec{Label: "ldb-count", Args: []string{"ldb-run", fmt.Sprint(seq), "0"}, Dir: dir, Timeout: time.Duration(r.Pick(300, 900)) * time.Second})
 		ok := r.Absorb(res, "C03:ldb-run")
 		var info struct {
 			Total   int      `json:"total"`
